@@ -1011,7 +1011,7 @@ func cloneTree(t map[string]string) map[string]string {
 }
 
 // "git" and "idea/x": eligible directories whose names are default ignore entries without the dot
-var histDirs = []string{".", "pkg/a", "pkg/b", "cmd/x", "internal/deep/c", "git", "idea/x"}
+var histDirs = []string{".", "pkg/a", "pkg/b", "cmd/x", "internal/deep/c", "git", "idea/x", "pkg/loadtestdata/gen"}
 
 // mutate applies one commit's worth of edits to the tree. own restricts the files touched
 // (so that the two sides of a pull request rarely conflict); region as in edit.
